@@ -72,7 +72,7 @@ def make_ensemble(rng, r, n=None, d=None):
             rhos[0] = np.outer(vecs[0], vecs[0])
             inp[0] = vecs[0].copy() if form == "vec1d" else vecs[0].reshape(-1, 1).copy()
         form = form + "+real-first"
-    pk = (r // 3) % 3
+    pk = (r // 3) % 4
     p = gen.prior(rng, n, pk)
     return dict(d=d, n=n, cplx=cplx, form=form, rhos=rhos, inp=inp, vecs=vecs, p=p, pk=pk)
 
